@@ -205,12 +205,85 @@ theorem mem_filterOwner {o : Option Str} {eps : List (Ep α)} {e : Ep α}
     simp only [List.mem_filter] at h
     exact ⟨h.1, h.2⟩
 
+/-! `dedupIds`: the first copy of every id, in order -/
+
+theorem dedupIdsAux_sublist (seen : List Str) (l : List (Ep α)) : (dedupIdsAux seen l).Sublist l := by
+  induction l generalizing seen with
+  | nil => simp [dedupIdsAux]
+  | cons x t ih =>
+    unfold dedupIdsAux
+    split
+    · exact (ih seen).cons _
+    · exact (ih _).cons_cons _
+
+theorem dedupIds_sublist (l : List (Ep α)) : (dedupIds l).Sublist l := dedupIdsAux_sublist [] l
+
+/-- the kept ids are pairwise distinct and none of them was already seen -/
+theorem dedupIdsAux_ids (seen : List Str) (l : List (Ep α)) :
+    ((dedupIdsAux seen l).map (·.id)).Nodup ∧ ∀ h ∈ dedupIdsAux seen l, h.id ∉ seen := by
+  induction l generalizing seen with
+  | nil => simp [dedupIdsAux]
+  | cons x t ih =>
+    unfold dedupIdsAux
+    split
+    · exact ih seen
+    · rename_i hx
+      obtain ⟨h1, h2⟩ := ih (x.id :: seen)
+      have hx' : x.id ∉ seen := by simpa using hx
+      constructor
+      · rw [List.map_cons, List.nodup_cons]
+        refine ⟨?_, h1⟩
+        intro hm
+        obtain ⟨y, hy, hid⟩ := List.mem_map.1 hm
+        exact h2 y hy (by rw [hid]; exact List.mem_cons_self)
+      · intro h hh
+        rcases List.mem_cons.1 hh with rfl | hh
+        · exact hx'
+        · exact fun hc => h2 h hh (List.mem_cons_of_mem _ hc)
+
+theorem dedupIds_ids_nodup (l : List (Ep α)) : ((dedupIds l).map (·.id)).Nodup :=
+  (dedupIdsAux_ids [] l).1
+
+/-- coverage: on a list sorted by `R`, every element whose id is not yet seen is represented by a
+kept copy of its id that is the element itself or `R`-precedes it -/
+theorem dedupIdsAux_cover {R : Ep α → Ep α → Prop} (seen : List Str) (l : List (Ep α))
+    (hs : l.Pairwise R) :
+    ∀ e ∈ l, e.id ∉ seen → ∃ h ∈ dedupIdsAux seen l, h.id = e.id ∧ (h = e ∨ R h e) := by
+  induction l generalizing seen with
+  | nil => intro e he; cases he
+  | cons x t ih =>
+    rw [List.pairwise_cons] at hs
+    intro e he hne
+    unfold dedupIdsAux
+    split
+    · rename_i hx
+      rcases List.mem_cons.1 he with rfl | he
+      · exact absurd (by simpa using hx) hne
+      · exact ih seen hs.2 e he hne
+    · rcases List.mem_cons.1 he with rfl | he
+      · exact ⟨e, List.mem_cons_self, rfl, Or.inl rfl⟩
+      · by_cases hid : e.id = x.id
+        · exact ⟨x, List.mem_cons_self, hid.symm, Or.inr (hs.1 e he)⟩
+        · have hne' : e.id ∉ x.id :: seen := by
+            intro hc
+            rcases List.mem_cons.1 hc with h | h
+            · exact hid h
+            · exact hne h
+          obtain ⟨h, hh, h1, h2⟩ := ih (x.id :: seen) hs.2 e he hne'
+          exact ⟨h, List.mem_cons_of_mem _ hh, h1, h2⟩
+
 theorem mem_rankByCosine {k : Int} {θ : α} {eps : List (Ep α)} {e : Ep α}
     (h : e ∈ rankByCosine k θ eps) : e ∈ eps ∧ passes θ e = true := by
   unfold rankByCosine at h
-  have := mem_of_mem_pySlice h
+  have := (dedupIds_sublist _).subset (mem_of_mem_pySlice h)
   rw [mem_isort] at this
   simpa [List.mem_filter] using this
+
+/-- a tier's answer never repeats an episode id -/
+theorem rankByCosine_ids_nodup (k : Int) (θ : α) (eps : List (Ep α)) :
+    ((rankByCosine k θ eps).map (·.id)).Nodup := by
+  unfold rankByCosine
+  exact (dedupIds_ids_nodup _).sublist ((pySlice_prefix k _).sublist.map _)
 
 theorem rankByCosine_length {k : Int} (θ : α) (eps : List (Ep α)) (hk : 0 ≤ k) :
     ((rankByCosine k θ eps).length : Int) ≤ k := pySlice_length_le _ _ hk
